@@ -476,3 +476,14 @@ fn run_direct(d: &Value, ctx: &mut Ctx) -> Verdict {
         _ => Err(Failure::fault("unknown direct case")),
     }
 }
+
+/// libFuzzer entry: first byte selects the codec (and prefix size), the rest is the input
+pub fn fuzz_bytes(data: &[u8], ctx: &mut Ctx) -> Verdict {
+    let Some((sel, b)) = data.split_first() else { return Ok(()) };
+    match sel % 4 {
+        0 => check_huff(b, ctx),
+        1 => check_huff_paths(b, ctx),
+        2 => check_int_decode(1 + (sel >> 2) % 8, b, ctx),
+        _ => check_str_roundtrip(2 + (sel >> 2) % 7, sel >> 5, b, ctx),
+    }
+}
